@@ -3,6 +3,7 @@
    of the result distinct.  Proofs are in Proofs/Redup. *)
 From DD Require Import Model.Redup.
 From DD Require Import Proofs.Redup.RedupProofs.
+From DD Require Import Model.Alloc Proofs.Alloc.AllocProofs Proofs.Alloc.AllocRedup.
 
 Local Open Scope Z_scope.
 
@@ -49,3 +50,52 @@ Theorem redup_keeps_unique_count : forall hstr htup pre x post next,
     length pre' = length pre.
 Proof. exact redup_keeps_unique_count_proof. Qed.
 Print Assumptions redup_keeps_unique_count.
+
+(* ---- the allocator across the processes of the pool (Model/Alloc.v) ----
+   The premise "every identity of the input is at most the counter" of the
+   theorems above is a property of the allocator: one counter cell shared by the
+   main process and all workers.  A history is the list of processes in the
+   order in which they allocate. *)
+
+(* the identities issued are exactly c+1 .. final, one per allocation *)
+Theorem shared_ids_range : forall c evs i, In i (issued c evs) <-> c < i <= final c evs.
+Proof. exact issued_range. Qed.
+Print Assumptions shared_ids_range.
+
+Theorem shared_ids_distinct : forall c evs, NoDup (issued c evs).
+Proof. exact issued_nodup. Qed.
+Print Assumptions shared_ids_distinct.
+
+(* an allocation after a point of the history, by whichever process, returns an identity not issued before it *)
+Theorem shared_later_fresh : forall c evs1 evs2 i,
+  In i (issued (final c evs1) evs2) -> ~ In i (issued c evs1) /\ c < i.
+Proof. exact later_fresh. Qed.
+Print Assumptions shared_later_fresh.
+
+Theorem shared_history_splits : forall c evs1 evs2,
+  issued c (evs1 ++ evs2) = issued c evs1 ++ issued (final c evs1) evs2.
+Proof. exact shared_split. Qed.
+Print Assumptions shared_history_splits.
+
+(* composition with reduplicate: an input whose identities are old (at most c) or were issued by the shared
+   allocator since, in any processes, is re-duplicated to pairwise distinct identities in the main process *)
+Theorem redup_nodup_shared : forall hstr htup l c evs,
+  (forall i, In i (ids_l l) -> i <= c \/ In i (issued c evs)) ->
+  NoDup (ids_l (fst (reduplicate hstr htup l (final c evs)))).
+Proof. exact redup_nodup_shared_proof. Qed.
+Print Assumptions redup_nodup_shared.
+
+(* per-process copies of the counter: fine for one process alone, refuted with two (worker 1 repeats the
+   identity the main process 0 has just handed out) *)
+Theorem local_counter_single_process : forall c p n, issued_local c (repeat p n) = issued c (repeat p n).
+Proof. exact local_single. Qed.
+Print Assumptions local_counter_single_process.
+
+Theorem local_counters_refuted : forall c, ~ NoDup (issued_local c [0%nat; 1%nat]).
+Proof. exact local_collides. Qed.
+Print Assumptions local_counters_refuted.
+
+Example shared_history_example :
+  issued 10 [0%nat; 2%nat; 1%nat; 0%nat] = [11; 12; 13; 14] /\ final 10 [0%nat; 2%nat; 1%nat; 0%nat] = 14 /\
+  issued_local 10 [0%nat; 2%nat; 1%nat; 0%nat] = [11; 11; 11; 12].
+Proof. vm_compute. repeat split. Qed.
